@@ -430,7 +430,7 @@ def plan(tier, seed, wave):
     if tier == "quick":
         if wave > 0:
             return []
-        n = 96
+        n = 72
     else:
         n = 384
     return [{"seed": seed, "start": wave * n + j, "n": 1, "tier": tier} for j in range(n)]
